@@ -1124,7 +1124,7 @@ func main() {
 	chk.Assume("a single substitution can never produce another valid symbol: UPC/EAN weights 3 and 1 are units modulo 10; Code 128 weights 1..102 are units modulo the prime 103 and the only value pairs that differ by 103 involve a start code, which is invalid inside a symbol and needed at its start; Code 93 C and K weights 1..20 are units modulo 47; Code 39 weight 1 modulo 43. Should the reference nevertheless judge a substituted symbol valid it is counted and not judged")
 	chk.Assume("a substituted symbol must give an ERROR: returning the original text although a check character does not verify is also a violation ('readers never return a symbol whose check characters do not verify'), reported under .../bad-check-accepted; returning other text under .../different-text")
 	chk.Assume("the multi-format UPC/EAN reader without POSSIBLE_FORMATS names a UPC-A symbol EAN_13 with a leading 0 (same bars)")
-	chk.Assume("weaker reading of 'reported as an error rather than as a different number': the property is about the check digit of the number that is drawn. The matching reader applied to the row must give an error. When an invalid symbol is handed to the multi-format reader, or to the image path (which retries every row reversed), those may find a second reading of the same bars in a different framing - another UPC/EAN format, or upside down (ORIENTATION 180) - whose own check digit verifies; such alias readings do not show a check digit being ignored and are counted and sampled in the evidence, not judged. Returning the DRAWN number, or any other number in the same format and orientation, is a violation")
+	chk.Assume("weaker reading of 'reported as an error rather than as a different number': the property is about the check digit of the number that is drawn. The matching reader applied to the row must give an error. When an invalid symbol is handed to the multi-format reader, or to the image path (which retries every row reversed), those may find a second reading of the same bars in a different framing - another UPC/EAN format, or upside down (ORIENTATION 180) - whose own check digit verifies; such alias readings do not show a check digit being ignored and are counted and sampled in the evidence, not judged. Returning the DRAWN number, or any other number in the same format and orientation, is a violation; so is an EAN-8 number delivered upside down from an EAN-8 row (the mirror image of an EAN-8 symbol is never a well-formed EAN-8 symbol: reversed odd-parity L codes are not R codes)")
 	chk.Assume("add-ons, weaker reading: a 5-digit add-on drawn with a parity pattern that does not encode its checksum must not be reported as a 5-digit UPC_EAN_EXTENSION; the library's fallback that then reads its first two digits as a 2-digit add-on (whose own parity rule they may satisfy) is counted and sampled in the evidence, not judged")
 	if chk.ReplayFile() != "" {
 		replay()
